@@ -3,7 +3,7 @@
    blocks, live cells, or the kind of memory error), the CPython reference run (per
    phase: printed values, live data, or the exception), and the single-owner guard. *)
 From Coq Require Import ZArith List Bool.
-From RV Require Import Base.Wire Device.DList Device.DListProg.
+From RV Require Import Base.Wire Device.DList Device.DListProg Device.DListLen.
 Import ListNotations.
 Open Scope Z_scope.
 
@@ -128,9 +128,96 @@ Definition py_trace_seq (setup : list stmt) (bodies : list (list stmt)) : list w
   | PRaise e => [WL [WI 1; WI (wexc e)]]
   end.
 
+(* ---- programs with run-time scalar arguments and len() indices (Device/DListLen.v)
+   (0 x (items)) (1 x (comp)) (2 x x) (3 x v) (4 x v) (5 x i) (6 x i) (8 x y i) (9 x y i) (10 (xs) ((0 y)..)) as above, and
+   (12 x off) x.append(c + off)   (13 x off) x.remove(c + off)   (14 x y sg k) mon.write(x[len(y) + k]) / x[k - len(y)] *)
+Fixpoint un_rvars (l : list wv) : option (list name) :=
+  match l with
+  | [] => Some []
+  | WL [WI 0; WI y] :: r => match un_rvars r with Some ys => Some (y :: ys) | None => None end
+  | _ => None
+  end.
+
+Definition un_tstmt (v : wv) : option tstmt :=
+  match v with
+  | WL [WI 0; WI x; WL items] => match un_ints items with Some l => Some (TDeclLit x l) | None => None end
+  | WL [WI 1; WI x; WL c] => match un_comp c with Some c => Some (TDeclComp x c) | None => None end
+  | WL [WI 2; WI x; WI y] => if Z.eqb x y then Some (TSelf x) else None
+  | WL [WI 3; WI x; WI a] => Some (TAppend x (TConst a))
+  | WL [WI 4; WI x; WI a] => Some (TRemove x (TConst a))
+  | WL [WI 5; WI x; WI i] => Some (TGet x i)
+  | WL [WI 6; WI x; WI i] => Some (TCallGet x i)
+  | WL [WI 8; WI x; WI y; WI i] => Some (TAppend x (TElem y i))
+  | WL [WI 9; WI x; WI y; WI i] => Some (TRemove x (TElem y i))
+  | WL [WI 10; WL xs; WL rs] =>
+      match un_ints xs, un_rvars rs with Some xl, Some yl => Some (TPerm xl yl) | _, _ => None end
+  | WL [WI 12; WI x; WI off] => Some (TAppend x (TRt off))
+  | WL [WI 13; WI x; WI off] => Some (TRemove x (TRt off))
+  | WL [WI 14; WI x; WI y; WI sg; WI k] => Some (TGetLen x y (negb (Z.eqb sg 0)) k)
+  | _ => None
+  end.
+
+Fixpoint un_tstmts (l : list wv) : option (list tstmt) :=
+  match l with
+  | [] => Some []
+  | v :: r => match un_tstmt v, un_tstmts r with
+              | Some s, Some ss => Some (s :: ss)
+              | _, _ => None
+              end
+  end.
+
+Definition un_gate (t : Z) : option Z := if (t <? 0)%Z then None else Some t.
+
+Fixpoint tf_passes_tr (t : tenv) (d : list name) (body : list gstmt) (st : fstate) (cs : list Z) : list wv :=
+  match cs with
+  | [] => []
+  | c :: r =>
+      match tf_pass c t d body st with
+      | Safe (st1, o) => fw_phase st1 o :: tf_passes_tr t d body st1 r
+      | Unsafe k => [WL [WI 1; WI (wkind k)]]
+      end
+  end.
+
+Definition tf_trace (setup : list tstmt) (body : list gstmt) (cs : list Z) : list wv :=
+  let '(t0, d0) := track false [] [] (ungated setup) in
+  match tf_block false 0 [] [] f_init (ungated setup) with
+  | Safe (st0, o) => fw_phase st0 o :: tf_passes_tr t0 d0 body st0 cs
+  | Unsafe k => [WL [WI 1; WI (wkind k)]]
+  end.
+
+Fixpoint tp_passes_tr (d : list name) (body : list gstmt) (st : pstate) (cs : list Z) : list wv :=
+  match cs with
+  | [] => []
+  | c :: r =>
+      match tp_block true c d st body with
+      | POk (st1, o) => py_phase st1 o :: tp_passes_tr d body st1 r
+      | PRaise e => [WL [WI 1; WI (wexc e)]]
+      end
+  end.
+
+Definition tp_trace (setup : list tstmt) (body : list gstmt) (cs : list Z) : list wv :=
+  let '(_, d0) := track false [] [] (ungated setup) in
+  match tp_block false 0 [] p_init (ungated setup) with
+  | POk (st0, o) => py_phase st0 o :: tp_passes_tr d0 body st0 cs
+  | PRaise e => [WL [WI 1; WI (wexc e)]]
+  end.
+
+(* the folded len() values, one per len() read of the body in source order (-1: emitted as run-time __redu_len) *)
+Fixpoint folded_lens (t : tenv) (ss : list gstmt) : list wv :=
+  match ss with
+  | [] => []
+  | (s, g) :: r =>
+      (match s with
+       | TGetLen _ y _ _ => [WI (match t_cur t y with Some cur => Z.of_nat (length cur) | None => -1 end)]
+       | _ => []
+       end) ++ folded_lens (track1 (is_gated g) t s) r
+  end.
+
 (* case: (0 (setup stmts) (body stmts) n)  ->  (0 guard (fw phases) (py phases))
    case: (1 (setup stmts) (body stmts) (gates) (g values, one per pass))  ->  the same for the
-         history in which pass k executes the body statements whose gate t satisfies t < g_k *)
+         history in which pass k executes the body statements whose gate t satisfies t < g_k
+   case: (2 (setup tstmts) (body tstmts) (gates) (run-time values c, one per pass))  ->  (0 len_ok (fw phases) (py phases)
+         (folded len() values of the body's len() reads)) *)
 Definition run (v : wv) : wv :=
   match v with
   | WL [WI 0; WL s; WL b; WI n] =>
@@ -151,6 +238,16 @@ Definition run (v : wv) : wv :=
           wok [wbool (single_owner_seq setup bodies);
                WL (fw_trace_seq setup bodies);
                WL (py_trace_seq setup bodies)]
+      | _, _, _, _ => wbad
+      end
+  | WL [WI 2; WL s; WL b; WL gates; WL cvals] =>
+      match un_tstmts s, un_tstmts b, un_ints gates, un_ints cvals with
+      | Some ss, Some bs, Some gs, Some cs =>
+          let body := zip_gates bs (map un_gate gs) in
+          wok [wbool (len_ok ss body);
+               WL (tf_trace ss body cs);
+               WL (tp_trace ss body cs);
+               WL (folded_lens (fst (track false [] [] (ungated ss))) body)]
       | _, _, _, _ => wbad
       end
   | _ => wbad
